@@ -31,6 +31,12 @@ type ConnCfg struct {
 	// HijackR is the size of the hijacked bufio.Reader handed to Upgrade
 	// (server only; 0 = 4096, the net/http size).
 	HijackR int `json:"hijack_r,omitempty"`
+	// Declined (only without Compress): the client offered permessage-deflate
+	// in the handshake and the server declined it (server role: the request
+	// carries the offer, the Upgrader has compression off; client role: the
+	// Dialer has compression on, the 101 does not announce it).  The
+	// connection must behave exactly like one that never mentioned it.
+	Declined bool `json:"declined,omitempty"`
 }
 
 func (c ConnCfg) Role() string {
@@ -117,7 +123,7 @@ func NewServerConn(cfg ConnCfg, tr *xport.ScriptConn, pool websocket.BufferPool)
 	if cfg.Pool {
 		u.WriteBufferPool = pool
 	}
-	c, err := u.Upgrade(w, upgradeRequest(cfg.Compress), nil)
+	c, err := u.Upgrade(w, upgradeRequest(cfg.Compress || cfg.Declined), nil)
 	if err != nil {
 		return nil, fmt.Errorf("harness: Upgrade failed: %w", err)
 	}
@@ -167,7 +173,7 @@ func NewClientConn(cfg ConnCfg, tr *xport.ScriptConn, pool websocket.BufferPool)
 		NetDialContext:    func(ctx context.Context, network, addr string) (net.Conn, error) { return tr, nil },
 		ReadBufferSize:    cfg.ReadBuf,
 		WriteBufferSize:   cfg.WriteBuf,
-		EnableCompression: cfg.Compress,
+		EnableCompression: cfg.Compress || cfg.Declined,
 	}
 	if cfg.Pool {
 		d.WriteBufferPool = pool
